@@ -1,12 +1,12 @@
 SPECIFICATION Spec
 CONSTANTS
   Anns = {"both", "size", "hash", "none"}
-  Devs = {"all"}
+  Devs = {"all", "short", "fail"}
   Sizes = {0, 1, 2, 3, 4, 5}
-  MaxFaults = 1
+  MaxFaults = 0
   FaultKinds = {"Flip", "Drop", "Dup", "Swap", "Cut"}
   Foreign = {"from", "res"}
   MaxHist = 99
-INVARIANTS TypeOK Safe FaultDetected CleanSuccess
+INVARIANTS TypeOK Safe CleanSuccess
 VIEW View
 CHECK_DEADLOCK FALSE
